@@ -41,6 +41,9 @@ EXCEPTIONS = {
         "the token starts with '<': a valid Turtle statement always closes an IRI reference with '>' on the same line (dialect of C07)",
     "R-SENT|NtTriplesYielder._look_for_last_index_of_uri_token|$1.find('>')":
         "the token starts with '<': every IRIREF of a valid N-Triples statement is closed by '>'",
+    "R-SENT|decide_literal_type|a_literal.rfind('\"')":
+        "for a bare token (no quote) the slice from -1 is its last character, which cannot contain the type mark: the "
+        "decision is xsd:string, as for the whole bare token before",
     "R-SENT|parse_literal|an_elem.find('\"', 1)":
         "parse_literal is only called (tune_token) on tokens that start with a quote, produced by scanners that located the closing quote",
     "R-SENT|NodeSelectorParser._parse_single_variable_select_query|string_query.find('{')":
